@@ -37,7 +37,8 @@ PROPS["C03"] = dict(
     assumptions=["the reference encoder/decoder in harness/src/refzmtp.rs is a correct reading of RFC 23/37",
                  "MAXMSGSIZE=-1 here; limits are exercised under C07"],
     shards=lambda tier, seed: sharded("c03", _n(tier, 4, 16), _n(tier, 240, 1500))
-    + ([dict(bin="c03", flavour="release", args=["--shard", "0/1"], timeout=1500, name="c03-release")] if tier == "thorough" else []),
+    + ([dict(bin="c03", flavour="release", args=["--shard", "0/1"], timeout=1500, name="c03-release")]
+       + sharded("c03", 2, 2400, flavour="asan", extra=["--tier", "quick"], name="c03-asan") if tier == "thorough" else []),
     min_evaluations={"quick": 10000, "thorough": 100000},
 )
 
@@ -87,7 +88,8 @@ PROPS["C18"] = dict(
          "(4) repeated sessions with identical static keys must not produce identical first ciphertext. distinct = (mech, direction, case).",
     assumptions=["cryptographic strength itself is out of scope; only observable consequences are checked",
                  "a pure truncation is indistinguishable from a slow link at engine level, so only 'prefix delivered' is required there"],
-    shards=lambda tier, seed: sharded("c18", 16, _n(tier, 300, 1800)),
+    shards=lambda tier, seed: sharded("c18", 16, _n(tier, 300, 1800))
+    + (sharded("c18", 4, 2400, flavour="asan", extra=["--tier", "quick"], name="c18-asan") if tier == "thorough" else []),
     min_evaluations={"quick": 1000, "thorough": 5000},
 )
 
@@ -123,7 +125,10 @@ PROPS["C07"] = dict(
     shards=lambda tier, seed: sharded("c07", _n(tier, 8, 16), _n(tier, 300, 2400))
     + [dict(bin="c07", args=["--only", "limits"], timeout=300, name="c07-limits")]
     + sharded("c07", _n(tier, 4, 8), _n(tier, 300, 1200), extra=["--only", "session"], name="c07-session")
-    + sharded("c07", 5, 120, extra=["--only", "pacing"], name="c07-pacing"),
+    + sharded("c07", 5, 120, extra=["--only", "pacing"], name="c07-pacing")
+    + (sharded("c07", 4, 2400, flavour="asan", extra=["--tier", "quick"], name="c07-asan")
+       + [dict(bin="c07", flavour="asan", args=["--tier", "quick", "--only", "limits"], timeout=1200, name="c07-asan-limits")]
+       + sharded("c07", 2, 2400, flavour="asan", extra=["--tier", "quick", "--only", "session"], name="c07-asan-session") if tier == "thorough" else []),
     min_evaluations={"quick": 1000, "thorough": 10000},
 )
 
@@ -270,7 +275,8 @@ PROPS["C10"] = dict(
          "distinct = (configuration, result vector) with >= 2 successful operations.",
     assumptions=["a timed-out or failed call is treated as not having taken effect only if the linearisation of successful calls still exists without it"],
     shards=lambda tier, seed: sharded("c10", _n(tier, 8, 16), _n(tier, 240, 900))
-    + [dict(bin="c10", args=["--only", "gate"], timeout=300, name="c10-gate")],
+    + [dict(bin="c10", args=["--only", "gate"], timeout=300, name="c10-gate")]
+    + ([dict(bin="c10", flavour="tsan", args=["--tier", "quick", "--shard", "%d/4" % i], timeout=1800, name="c10-tsan-%d" % i) for i in range(4)] if tier == "thorough" else []),
     min_evaluations={"quick": 100, "thorough": 1000},
 )
 
@@ -403,6 +409,10 @@ def _c20_shards(tier, seed):
     for i, (zc, ms, ck, b, sz) in enumerate(cfgs):
         out.append(dict(bin="c20", flavour="uring", args=["--shard", "%d/%d" % (i, len(cfgs)), "--zc", zc, "--ms", ms, "--cork", ck, "--bufs", b, "--bufsize", sz],
                         timeout=900 if tier == "quick" else 2400, name="c20-zc%d-ms%d-ck%d-%dx%d" % (zc, ms, ck, b, sz)))
+    if tier == "thorough":
+        zc, ms, ck, b, sz = cfgs[1]
+        out.append(dict(bin="c20", flavour="asan_uring", args=["--tier", "quick", "--shard", "0/1", "--zc", zc, "--ms", ms, "--cork", ck, "--bufs", b, "--bufsize", sz],
+                        timeout=3000, name="c20-asan-uring"))
     return out
 
 
